@@ -1,0 +1,13 @@
+//go:build verif
+
+package remote
+
+// VerifMultipleErrs builds the error value remoteDelivery.Body returns when
+// several recipients failed (multipleErrs) from the given per-recipient errors.
+func VerifMultipleErrs(errs map[string]error) error {
+	m := &multipleErrs{errs: make(map[string]error, len(errs))}
+	for k, v := range errs {
+		m.SetStatus(k, v)
+	}
+	return m
+}
